@@ -244,6 +244,9 @@ func (w *Worker) intrinsic(fn *ssa.Function, args []Value) (Value, bool) {
 			return s.SOff, true
 		}
 		return tt.BV(64, uint64(s.Off)), true
+	case "verifObserveInt", "verifObserveF", "verifObserveBool", "verifObserveStr":
+		w.observes = append(w.observes, obsRec{w.concStr(args[0], "observation name"), args[1]})
+		return nil, true
 	case "verifIsSym":
 		t, ok := args[0].(*Term)
 		return tt.Bool(ok && !t.IsConst()), true
